@@ -1031,6 +1031,250 @@ fn set_vault_amount(w: &mut World, market_token: &Pubkey, amount: u64) {
     }
 }
 
+
+// ------------------------------------------------------------------------------------------------
+// Instruction level: abandoned (soft-failed) executions vs a twin world without them
+
+use crate::world::exchange::{OrderKind, OrderReq};
+use gmsol_store::states::{common::action::{Action, ActionState}, Deposit, Order, Withdrawal};
+
+fn market_raw(w: &World, market: &Pubkey) -> Option<Vec<u8>> {
+    w.svm.get(market).map(|a| a.data[8..8 + MSZ].to_vec())
+}
+
+fn refresh_prices(w: &mut World, toks: (usize, usize, usize), btc_usd: u128, sol_usd: u128) -> bool {
+    let e18 = 1_000_000_000_000_000_000u128;
+    w.set_price(toks.0, (btc_usd - 10) * e18, btc_usd * e18, (btc_usd + 10) * e18).is_ok()
+        && w.set_price(toks.1, (sol_usd - 1) * e18, sol_usd * e18, (sol_usd + 1) * e18).is_ok()
+        && w.set_price(toks.2, e18, e18, e18).is_ok()
+}
+
+/// One successful operation, identical in both worlds. Returns whether it executed.
+fn good_op(w: &mut World, alice: Pubkey, m0: usize, toks: (usize, usize, usize), px: (u128, u128), which: u64, a: u64) -> bool {
+    let ok = match which {
+        0 => match w.create_deposit(alice, m0, 1_000_000_000 + a, 50_000_000 + a, None, None, &[], &[], 0) {
+            Ok(d) => {
+                w.svm.warp(1);
+                let r = refresh_prices(w, toks, px.0, px.1) && w.execute_deposit(d, true).is_ok();
+                let _ = w.close_deposit(alice, d);
+                r
+            }
+            Err(_) => false,
+        },
+        1 | 2 => {
+            let mut req = if which == 1 {
+                let mut r = OrderReq::new(OrderKind::MarketIncrease, m0, true, false);
+                r.initial_collateral_delta_amount = 100_000_000 + a;
+                r.size_delta_value = 400 * crate::world::UNIT;
+                r
+            } else {
+                let mut r = OrderReq::new(OrderKind::MarketDecrease, m0, true, false);
+                r.size_delta_value = 150 * crate::world::UNIT;
+                r
+            };
+            req.min_output = 0;
+            match w.create_order(alice, &req) {
+                Ok(o) => {
+                    w.svm.warp(1);
+                    let r = refresh_prices(w, toks, px.0, px.1) && w.execute_order(o, true).is_ok();
+                    let _ = w.close_order(alice, o);
+                    r
+                }
+                Err(_) => false,
+            }
+        }
+        _ => {
+            let mut req = OrderReq::new(OrderKind::MarketSwap, m0, true, false);
+            req.initial_collateral_token = Some(w.tokens[toks.1].mint);
+            req.initial_collateral_delta_amount = 200_000_000 + a;
+            req.swap_path = vec![w.markets[m0].market_token];
+            match w.create_order(alice, &req) {
+                Ok(o) => {
+                    w.svm.warp(1);
+                    let r = refresh_prices(w, toks, px.0, px.1) && w.execute_order(o, true).is_ok();
+                    let _ = w.close_order(alice, o);
+                    r
+                }
+                Err(_) => false,
+            }
+        }
+    };
+    ok
+}
+
+fn twin_shard(args: &Args, shard: u64, m: &mut Monitor) {
+    let mut rng = Rng::derive(args.seed, shard, 2121);
+    let iters = args.scale(30, 80);
+    let mut w = World::bootstrap_store();
+    w.bootstrap_oracle();
+    let btc = w.add_token("BTC", 8, 2, true);
+    let sol = w.add_token("SOL", 9, 4, false);
+    let usdc = w.add_token("USDC", 6, 6, false);
+    let toks = (btc, sol, usdc);
+    let m0 = w.add_market(btc, sol, usdc);
+    let market = w.markets[m0].market;
+    let alice = w.add_user("alice");
+    let (sol_mint, usdc_mint) = (w.tokens[sol].mint, w.tokens[usdc].mint);
+    token::fund_ata(&mut w.svm, &alice, &sol_mint, 10_000_000_000_000);
+    token::fund_ata(&mut w.svm, &alice, &usdc_mint, 10_000_000_000_000);
+    w.svm.warp(1);
+    if !refresh_prices(&mut w, toks, 60_000, 150) {
+        m.inconclusive("harness: twin bootstrap prices failed");
+        return;
+    }
+    let boot = match w.create_deposit(alice, m0, 800_000_000_000, 200_000_000_000, None, None, &[], &[], 0) {
+        Ok(d) => {
+            let r = w.execute_deposit(d, true).is_ok();
+            let _ = w.close_deposit(alice, d);
+            r
+        }
+        Err(_) => false,
+    };
+    if !boot || !good_op(&mut w, alice, m0, toks, (60_000, 150), 1, 0) {
+        m.inconclusive("harness: twin bootstrap liquidity / position failed");
+        return;
+    }
+    for it in 0..iters {
+        let px = (59_000 + rng.range(0, 2_000) as u128, 140 + rng.range(0, 20) as u128);
+        let dt = rng.range(1, 900) as i64;
+        let mut twin = w.clone();
+        for x in [&mut w, &mut twin] {
+            x.svm.warp(dt);
+            if !refresh_prices(x, toks, px.0, px.1) {
+                m.count("twin_price_refresh_failed");
+            }
+        }
+        // abandoned executions in `w` only
+        let n_bad = rng.range(1, 3);
+        for _ in 0..n_bad {
+            let Some(pre) = market_raw(&w, &market) else { return };
+            let kind = rng.below(4);
+            let (res, cancelled, name): (Option<crate::world::TxResult>, bool, &str) = match kind {
+                0 => {
+                    let mut req = OrderReq::new(OrderKind::MarketIncrease, m0, true, false);
+                    req.initial_collateral_delta_amount = 50_000_000;
+                    req.size_delta_value = 300 * crate::world::UNIT;
+                    req.acceptable_price = Some(1); // unreachable for a long increase
+                    match w.create_order(alice, &req) {
+                        Ok(o) => {
+                            w.svm.warp(1);
+                            twin.svm.warp(1);
+                            let _ = refresh_prices(&mut w, toks, px.0, px.1) && refresh_prices(&mut twin, toks, px.0, px.1);
+                            let r = w.execute_order(o, false);
+                            let c = load::<Order>(&w.svm, &o).and_then(|x| x.header().action_state().ok()).map(|s| s == ActionState::Cancelled).unwrap_or(false);
+                            let _ = w.close_order(alice, o);
+                            (Some(r), c, "increase_unacceptable_price")
+                        }
+                        Err(_) => (None, false, "increase_unacceptable_price"),
+                    }
+                }
+                1 => {
+                    let mut req = OrderReq::new(OrderKind::MarketSwap, m0, true, false);
+                    req.initial_collateral_token = Some(sol_mint);
+                    req.initial_collateral_delta_amount = 300_000_000;
+                    req.swap_path = vec![w.markets[m0].market_token];
+                    req.min_output = u64::MAX as u128;
+                    match w.create_order(alice, &req) {
+                        Ok(o) => {
+                            w.svm.warp(1);
+                            twin.svm.warp(1);
+                            let _ = refresh_prices(&mut w, toks, px.0, px.1) && refresh_prices(&mut twin, toks, px.0, px.1);
+                            let r = w.execute_order(o, false);
+                            let c = load::<Order>(&w.svm, &o).and_then(|x| x.header().action_state().ok()).map(|s| s == ActionState::Cancelled).unwrap_or(false);
+                            let _ = w.close_order(alice, o);
+                            (Some(r), c, "swap_min_output")
+                        }
+                        Err(_) => (None, false, "swap_min_output"),
+                    }
+                }
+                2 => match w.create_deposit(alice, m0, 2_000_000_000, 100_000_000, None, None, &[], &[], u64::MAX) {
+                    Ok(d) => {
+                        w.svm.warp(1);
+                        twin.svm.warp(1);
+                        let _ = refresh_prices(&mut w, toks, px.0, px.1) && refresh_prices(&mut twin, toks, px.0, px.1);
+                        let r = w.execute_deposit(d, false);
+                        let c = load::<Deposit>(&w.svm, &d).and_then(|x| x.header().action_state().ok()).map(|s| s == ActionState::Cancelled).unwrap_or(false);
+                        let _ = w.close_deposit(alice, d);
+                        (Some(r), c, "deposit_min_market_token")
+                    }
+                    Err(_) => (None, false, "deposit_min_market_token"),
+                },
+                _ => match w.create_withdrawal(alice, m0, 1_000_000_000, None, None, &[], &[], u64::MAX, u64::MAX) {
+                    Ok(wd) => {
+                        w.svm.warp(1);
+                        twin.svm.warp(1);
+                        let _ = refresh_prices(&mut w, toks, px.0, px.1) && refresh_prices(&mut twin, toks, px.0, px.1);
+                        let r = w.execute_withdrawal(wd, false);
+                        let c = load::<Withdrawal>(&w.svm, &wd).and_then(|x| x.header().action_state().ok()).map(|s| s == ActionState::Cancelled).unwrap_or(false);
+                        let _ = w.close_withdrawal(alice, wd);
+                        (Some(r), c, "withdrawal_min_output")
+                    }
+                    Err(_) => (None, false, "withdrawal_min_output"),
+                },
+            };
+            let Some(res) = res else {
+                m.count(&format!("twin_create_failed_{name}"));
+                continue;
+            };
+            let Some(post) = market_raw(&w, &market) else { return };
+            let rev_pre = u64::from_le_bytes(pre[BUF_OFF..BUF_OFF + 8].try_into().unwrap());
+            let rev_post = u64::from_le_bytes(post[BUF_OFF..BUF_OFF + 8].try_into().unwrap());
+            match res {
+                Err((e, _)) => m.count(&format!("twin_bad_exec_tx_failed_{name}_{}", e.custom_code().unwrap_or(0))),
+                Ok(_) if cancelled => {
+                    m.eval();
+                    m.count(&format!("twin_soft_failed_{name}"));
+                    if rev_post > rev_pre {
+                        m.count("twin_abandoned_revertible_operation_observed");
+                    }
+                    // The instruction also runs *committed* bookkeeping operations (escrow → vault transfer-in
+                    // before, vault → escrow transfer-out after the failure) whose net effect on the recorded
+                    // balances is zero but which re-stamp `other`; so: pools / clocks byte-identical, values of
+                    // `other` equal.
+                    let pc = STATE_OFF..STATE_OFF + POOLS_SZ + CLOCKS_SZ;
+                    if post[pc.clone()] != pre[pc] || parse_storage(&post) != parse_storage(&pre) {
+                        m.violation(
+                            "C21:ix:cancelled_execution_changed_stored_market_state",
+                            json!({"shard": shard, "iter": it, "kind": name, "diff": diff_state(&parse_storage(&post), &parse_storage(&pre)),
+                                   "differing_state_offsets": (0..STATE_SZ).filter(|i| post[STATE_OFF + i] != pre[STATE_OFF + i]).take(64).collect::<Vec<_>>()}),
+                        );
+                    }
+                }
+                Ok(_) => m.count(&format!("twin_bad_exec_not_cancelled_{name}")),
+            }
+        }
+        // the same successful operation in both worlds
+        let which = rng.below(4);
+        let a = rng.range(0, 1_000_000);
+        let ra = good_op(&mut w, alice, m0, toks, px, which, a);
+        let rb = good_op(&mut twin, alice, m0, toks, px, which, a);
+        m.eval();
+        if ra != rb {
+            m.violation(
+                "C21:twin:operation_outcome_differs_after_abandoned_execution",
+                json!({"shard": shard, "iter": it, "op": which, "with_abandoned": ra, "without": rb}),
+            );
+        }
+        let (Some(ma), Some(mb)) = (load::<Market>(&w.svm, &market), load::<Market>(&twin.svm, &market)) else {
+            m.inconclusive("harness: twin market unreadable");
+            return;
+        };
+        let (sa, sb) = (storage_via_accessors(&ma), storage_via_accessors(&mb));
+        if sa != sb {
+            m.violation(
+                "C21:twin:stored_state_differs_from_world_without_abandoned_executions",
+                json!({"shard": shard, "iter": it, "op": which, "diff(with abandoned vs without)": diff_state(&sa, &sb)}),
+            );
+        }
+        if ra {
+            m.count("twin_successful_op_compared");
+            m.nontrivial(format!("twin|{which}|{n_bad}").as_bytes());
+        } else {
+            m.count("twin_op_failed_in_both");
+        }
+    }
+}
+
 pub fn run(args: &Args) -> Option<i32> {
     let mut mon = Monitor::new(
         args,
@@ -1045,15 +1289,25 @@ pub fn run(args: &Args) -> Option<i32> {
          account bytes outside the buffer must not change before commit / after drop; after commit storage must equal \
          the overlay and untouched kinds must be byte-identical. non-trivial = an operation with at least one successful \
          value-changing write that was committed or abandoned and then checked; distinct = hash of (commit|drop, \
-         liquidity?, set of touched pool kinds / clocks / other, #abandoned dirty operations since the last commit ≤3)",
+         liquidity?, set of touched pool kinds / clocks / other, #abandoned dirty operations since the last commit ≤3). \
+         Second part (instruction level, twin worlds): real soft-failing executions (increase with unreachable acceptable \
+         price, swap / deposit / withdrawal with unreachable minimum output, throw_on_execution_error = false) abandon a \
+         revertible operation after update_fees_state has written into the buffer; the stored pools / clocks bytes and the \
+         values of the other state must not change, and the next identical successful operation must leave the same stored state as in a cloned world that \
+         never ran the abandoned executions",
     );
     mon.assume("market accounts are created by the real initialize_market; market-token vault balance / supply are seeded by state injection so that burns have something to burn");
     mon.assume("`next_trade_id` is documented to derive from the stored trade count (idempotent inside one operation); the model follows that");
     mon.assume("failed / panicking transactions are rolled back by the runtime (hostsvm atomicity), the model is rolled back with them");
-    let shards = args.scale(96, 768);
-    let txs = args.scale(4_000, 16_000);
+    let shards = args.scale(64, 256);
+    let txs = args.scale(3_000, 8_000);
+    let twin_shards = args.scale(16, 64);
     let quiet = hostsvm::QuietStdout::new();
-    run_shards(&mut mon, args.threads, shards, |shard, m| {
+    run_shards(&mut mon, args.threads, shards + twin_shards, |shard, m| {
+        if shard >= shards {
+            twin_shard(args, shard - shards, m);
+            return;
+        }
         let mut rng = Rng::derive(args.seed, shard, 21);
         let mut w = World::bootstrap_store();
         w.bootstrap_oracle();
@@ -1223,6 +1477,8 @@ pub fn run(args: &Args) -> Option<i32> {
     mon.require("liq_commit_burned", 50);
     mon.require("liq_drop_with_deferred", 50);
     mon.require("tx_failed_rolled_back", 50);
+    mon.require("twin_abandoned_revertible_operation_observed", 300);
+    mon.require("twin_successful_op_compared", 300);
     mon.require("tx_liquidity_commit_aborted_rolled_back", 20);
     Some(mon.finish())
 }
